@@ -56,7 +56,8 @@ def compute(spec, kw):
     outs = []
     for j, (name, dims) in enumerate(spec["vars"]):
         shape = tuple(spec["sizes"][d] for d in dims)
-        val = var_value(kw, j, shape) + spec.get("epoch", 0)
+        val = (var_value(kw, j, shape) + spec.get("epoch", 0)) * \
+            spec.get("scale", 1)
         if undefined_at(spec, kw):
             val = val * float("nan")
         if spec.get("str_var") == j and not shape:
@@ -181,8 +182,8 @@ def check_dataset(ds, *, spec, fn_args, coords, requested, fn_kwargs_extra,
                 full = dict(kw)
                 full.update(fn_kwargs_extra)
                 shape = tuple(spec["sizes"][d] for d in dims)
-                want = np.asarray(var_value(full, j, shape), dtype=float) \
-                    + spec.get("epoch", 0)
+                want = (np.asarray(var_value(full, j, shape), dtype=float)
+                        + spec.get("epoch", 0)) * spec.get("scale", 1)
                 if spec.get("str_var") == j and not shape:
                     want = np.asarray("txt%d" % int(want))
                     ok = got.shape == () and str(got) == str(want)
@@ -269,7 +270,8 @@ def check_dataframe(df, *, spec, fn_args, settings, fn_kwargs_extra,
         full = dict(kw)
         full.update(fn_kwargs_extra)
         for j, name in enumerate(names):
-            want = var_value(full, j, ()) + spec.get("epoch", 0)
+            want = (var_value(full, j, ()) + spec.get("epoch", 0)) * \
+                spec.get("scale", 1)
             got = row[name]
             if spec.get("str_var") == j:
                 want = "txt%d" % int(want)
